@@ -17,6 +17,7 @@ cd /verif || exit 2
 git merge --no-edit w$P >/dev/null 2>&1
 python3 tools/mkmain.py >/dev/null
 # any remaining conflicts?
+git checkout --ours MANIFEST.json 2>/dev/null; git add MANIFEST.json 2>/dev/null
 if git diff --name-only --diff-filter=U | grep -v "lean/Driver/Main.lean" | grep -q .; then echo "VERIF CONFLICTS:"; git diff --name-only --diff-filter=U; exit 5; fi
 python3 tools/mkmanifest.py; python3 tools/fixhashes.py
 git add -A && git commit -qm "Merge $P from builder branch" 
